@@ -179,6 +179,14 @@ func genC05(tier string, seed uint64, emit func(string)) {
 			emit(serveLine("-", [][]byte{requestBytes(t.argv(), nil)}, script, floatTable(t.argv()), "x "+t.expected))
 		}
 	}
+	// a connection that is already some seconds old when the command arrives: relative times are relative to the
+	// moment the command is executed, not to anything earlier
+	for _, lag := range []int{2600} {
+		for _, cmd := range []string{"EXPIRE", "SETEX", "SET"} {
+			t := genRequest(r, cmd)
+			emit(serveLine(fmt.Sprintf("lag=%d", lag), [][]byte{requestBytes(t.argv(), nil)}, genScript(r, 1, false), floatTable(t.argv()), "x "+t.expected))
+		}
+	}
 	// unknown commands: error reply, no handler call
 	for i := 0; i < per; i++ {
 		name := []byte([]string{"NOSUCH", "GETX", "", "G E T", "SE", "get\x00", "FLUSHALL", "ZADDX"}[r.Intn(8)])
@@ -477,6 +485,15 @@ func genC04(tier string, seed uint64, emit func(string)) {
 	r := NewRng(seed)
 	// several connections with large array replies and slow readers: every connection must still receive exactly its
 	// own well-formed replies
+	// a reader that pauses in the middle of a large reply for longer than any plausible write timeout, with further
+	// requests already pipelined: what it finally receives must still be complete frames
+	pauses := 1
+	if tier == "thorough" {
+		pauses = 3
+	}
+	for i := 0; i < pauses; i++ {
+		emit(fmt.Sprintf("stallr %d %d %d", 20000+r.Intn(60000), 5+r.Intn(40), 6000+i*1000))
+	}
 	nconc := 6
 	if tier == "thorough" {
 		nconc = 120
@@ -559,6 +576,10 @@ func genC07(tier string, seed uint64, emit func(string)) {
 	hostile := []string{"*0\r\n", "*1\r\n$-1\r\n", "*1\r\n*0\r\n", "*-1\r\n", "+PING\r\n", ":1\r\n", "$-1\r\n", "-ERR\r\n", "*1\r\n*1\r\n*1\r\n*0\r\n"}
 	for _, h := range hostile {
 		emit(serveLine("-", [][]byte{append([]byte(h), reqS("PING")...)}, "r s:4f4b", "", ""))
+	}
+	// many clients going away at the same instant (every connection goroutine unregisters itself at that moment)
+	for _, n := range []int{50, 200} {
+		emit(fmt.Sprintf("massdisc %d %d", n, 1+r.Intn(3)))
 	}
 	// clients that stop reading their replies must not disturb a witness connection
 	for _, store := range []string{"double", "example"} {
